@@ -586,8 +586,16 @@ SEARCH_TRUSTED = [
     "legal move lists, final-root flags and PV replays on the harness side come from Go movegen + MakeMove/InCheck + Threefold/FiftyCnt (C01/C02/C10 cover those)",
 ]
 
+SEARCH_MODEL_RULE = "whole searches on a real search.Search vs the closed executable model coq/Model/Search.v (alphaBeta, quiescence, picker, table, history tables, PV buffer, iterative deepening composed from the component models): every info line (depth, score, nodes, hashfull, variation), score/move/ponder, Counters.Nodes, abort flag, generation, board snapshot equality, and after each case every non-empty table bucket and every non-zero history/capture/continuation cell; roots = the 40 fixed C06 roots (in check, single reply, promotion, en passant, clocks 97..101, repetitions through histories, mate, stalemate), hard budgets 0..12 (thorough 0..120) on 9 roots, odd int8 depth limits, random depth limits 1..4 (5), random hard budgets, soft-then-hard replays, short games, abort-then-search, two roots on one engine, all three limits; tables 32000 B / 32 KB / 64 KB / 1 MB; standard.epd roots and random walks; node cap 3000 (8000) per request; distinct by case"
+SEARCH_MODEL_TRUSTED = [
+    "closed search model coq/Model/Search.v: the stop channel, pondering and time limits are not modelled (node and depth limits only); "
+    "Go panics (move store exhausted, history stack overflow, index out of range) are the model outcome Panic; recursion on explicit fuel",
+    "the engine's private fields tt and ranker are reached by the stream 'search' through reflect/unsafe (no hook exists); cells are read "
+    "through transp.VerifBucket and heur.VerifTables + the public LookUp methods",
+]
+
 reg(Prop("C06", "Search returns a legal move unless the game is over; board left untouched",
-         ["Properties/C06.v", "Properties/C06_skel.v"],
+         ["Properties/C06.v", "Properties/C06_skel.v", "Properties/C06_model.v"],
          [StreamCfg("c06", 20000, 150000, judge="judge_c06", model=False,
                     rule="40 fixed roots (in check, single reply, promotion, en passant, clocks 97..101, 2nd/3rd/4th occurrence "
                          "through histories, mate, stalemate, 16 queens) x {every hard node budget k in 0..300 (quick) / 0..2000+ "
@@ -599,16 +607,21 @@ reg(Prop("C06", "Search returns a legal move unless the game is over; board left
                          "256, 2^31, 2^63, overflow, garbage) and random integers on random fixed roots; distinct by root x text"),
           StreamCfg("c06arg", 4000, 100000,
                     rule="UCI driver with a recording search: go depth <text> for listed texts, every integer in -700..700, "
-                         "neighbourhoods of +-2^7..2^62, random int64, digit strings up to 30 digits, garbage; model = uci_go_depth")],
-         trusted=SEARCH_TRUSTED + SKEL_TRUSTED,
+                         "neighbourhoods of +-2^7..2^62, random int64, digit strings up to 30 digits, garbage; model = uci_go_depth"),
+          StreamCfg("search", 160, 2000, judge="judge_search", rule=SEARCH_MODEL_RULE)],
+         trusted=SEARCH_TRUSTED + SKEL_TRUSTED + SEARCH_MODEL_TRUSTED,
          assumptions=["C06_null_only_final and C06_move carry explicit hypotheses about the root call's answer (in-window answer: "
                       "its line starts with a playable root move; an empty line at depth >= 1 only on a final root); "
                       "store_ok (DESIGN O2: the 2048-slot move store is not overrun) is not proved, only hunted",
-                      "pondering (PonderHit) is outside the model"],
+                      "pondering (PonderHit) is outside the model",
+                      "closed search model (Properties/C06_model.v): board_restored is proved for alphaBeta / quiescence / Go of the "
+                      "executable model for every class of positions closed under the moves played; on C03's invariant it rests on two "
+                      "named hypotheses (gen_applicable = C03's open statement about generated moves; invariant_kept = ep_inv / castle_inv "
+                      "survive make / make_null)"],
          design_ref="5/C06"))
 
 reg(Prop("C07", "Reported variations are legal lines and agree with the move played",
-         ["Properties/C07.v", "Properties/C07_skel.v"],
+         ["Properties/C07.v", "Properties/C07_skel.v", "Properties/C07_model.v"],
          [StreamCfg("c07", 8000, 60000, judge="judge_c07", model=False,
                     rule="the C06 request sweep; every info line parsed and every variation replayed move by move on the Go board; "
                          "non-trivial = non-final root"),
@@ -621,15 +634,19 @@ reg(Prop("C07", "Reported variations are legal lines and agree with the move pla
                     rule="random setNull/insert sequences (random plies, search-like walks, deep plies 50..62, out-of-range plies) on "
                          "the real PV buffer through VerifNewPV vs Model/Pv.v; all 64 lines compared"),
           StreamCfg("c07score", 65536, 65536,
-                    rule="chess.Score.String for all 65536 int16 scores vs Model/Pv.v score_string")],
-         trusted=SEARCH_TRUSTED + SKEL_TRUSTED,
+                    rule="chess.Score.String for all 65536 int16 scores vs Model/Pv.v score_string"),
+          StreamCfg("search", 160, 2000, judge="judge_search", rule=SEARCH_MODEL_RULE)],
+         trusted=SEARCH_TRUSTED + SKEL_TRUSTED + SEARCH_MODEL_TRUSTED,
          assumptions=["legality of the reported line is proved for the buffer mechanics (line(ply) = m :: line(ply+1)) and observed on "
                       "the real search (c07/c07uci); the induction over the real search tree is Layer A",
-                      "no claim about the move returned when no non-empty variation was reported (abort before the first completed depth >= 1)"],
+                      "no claim about the move returned when no non-empty variation was reported (abort before the first completed depth >= 1)",
+                      "closed search model (Properties/C07_model.v): the model's iterative deepening is proved to be Layer B instantiated "
+                      "with the model's alphaBeta (under board restoration); legality of every reported line on the closed model is a "
+                      "statement (C07_model_lines_legal_statement), checked per run by judge_search"],
          design_ref="5/C07"))
 
 reg(Prop("C08", "Search is reproducible and never overspends its node budget",
-         ["Properties/C08.v", "Properties/C08_skel.v"],
+         ["Properties/C08.v", "Properties/C08_skel.v", "Properties/C08_model.v"],
          [StreamCfg("c08", 150, 1000, judge="judge_c08", model=False,
                     rule="games of 4..17 plies (thorough 10..90) on two fresh engines run concurrently under busy goroutines with soft "
                          "node limits (some with depth limits / hard caps), compared on move, score, ponder, nodes and every printed "
@@ -641,14 +658,18 @@ reg(Prop("C08", "Search is reproducible and never overspends its node budget",
                     rule="4..(3+2*NumCPU) fresh engines (own Search, own Board) released together serve the same request WITHOUT "
                          "WithCounters - hard budget 8k..38k nodes / soft limit with hard cap (datagen style) / soft only, 1-2 plies, "
                          "x4 in the thorough tier - and must reproduce a solo run (itself run twice): move, score, ponder, nodes "
-                         "and every printed line modulo time; node counts read from the info lines must not pass the budget")],
-         trusted=SEARCH_TRUSTED + SKEL_TRUSTED + [
+                         "and every printed line modulo time; node counts read from the info lines must not pass the budget"),
+          StreamCfg("search", 600, 6000, judge="judge_search", rule=SEARCH_MODEL_RULE)],
+         trusted=SEARCH_TRUSTED + SKEL_TRUSTED + SEARCH_MODEL_TRUSTED + [
              "determinism with respect to scheduling and wall clock is OBSERVED (two engines in parallel goroutines under CPU load), not proved: "
              "the Go runtime is outside the model; that one Search instance is used by one goroutine only is a reading of the source",
              "the engine's private fields tt and ranker are read by the harness through reflect/unsafe for the state comparison (no hook needed)"],
          assumptions=["time limits excluded (soft/hard node and depth limits only)",
                       "C08_soft_hard is proved for the decision layer under the stated oracle hypotheses (a call within the budget answers as "
-                      "without one; every root call counts at least one node); that alphaBeta satisfies them is Layer A + observation"],
+                      "without one; every root call counts at least one node); that alphaBeta satisfies them is Layer A + observation",
+                      "closed search model (Properties/C08_model.v): nodes_le_budget, search_deterministic (independence of the record's "
+                      "debugging fields) and the soft/hard replay are proved of the executable model of the whole search without hypotheses; "
+                      "determinism covers runs that return (outcome Panic / OutOfFuel agreement is a statement only)"],
          design_ref="5/C08"))
 
 # ------------------------------------------------------------------------------------------------
